@@ -4,7 +4,7 @@ import ast
 from ..core.model import AnchorError
 from ..core.cfg import walk_shallow, cfg_of
 from ..core.facts import U, atoms_of
-from ..engine import fn_name, kwarg, local_defs, returns_of, stmts_in
+from ..engine import fn_name, kwarg, local_defs, returns_of, stmts_in, vars_assigned_from, var_from_call
 from ..kinds import parity
 from . import c13
 
@@ -50,45 +50,56 @@ def s2(ctx, rep):
     P = ctx.P
     f = P.method("SynchronousBracket", "on_result")
     cfg = cfg_of(f)
-    wr = [n for n in cfg.nodes if n.kind == "stmt" and isinstance(n.ast, ast.Assign) and isinstance(n.ast.targets[0], ast.Subscript)
-          and U(n.ast.targets[0].value) == "rung"]
+    wr = _slot_writes(cfg)
     if len(wr) != 1:
-        raise AnchorError("SynchronousBracket.on_result: slot write `rung[pos] = ...` not found")
+        raise AnchorError("SynchronousBracket.on_result: slot write `rung[pos] = (trial id, metric)` not found")
     at = ctx.facts(f).at(wr[0].id)
     pos = U(wr[0].ast.targets[0].slice)
+    rungv = U(wr[0].ast.targets[0].value)
     ok = ("le", "0", pos) in at and ("lt", pos, "self._first_free_pos") in at
     rep.put(ok, "S2", "guarded_by", "SynchronousBracket.on_result: slot index within the handed-out range", f, wr[0].ast, "0 <= pos < _first_free_pos")
-    ok = ("is", "metric_val", "None", True) in at
-    mv = local_defs(f, "metric_val")
-    ok = ok and len(mv) == 1 and isinstance(mv[0], tuple) and U(mv[0][1]) == f"rung[{pos}]"
+    mvn = None
+    for x in walk_shallow(f.node):
+        if isinstance(x, ast.Assign) and isinstance(x.targets[0], ast.Tuple) and len(x.targets[0].elts) == 2 and U(x.value) == f"{rungv}[{pos}]":
+            mvn = U(x.targets[0].elts[1])
+    ok = mvn is not None and ("is", mvn, "None", True) in at
     rep.put(ok, "S2", "guarded_by", "SynchronousBracket.on_result: the slot is still pending (its metric is None) when written", f, wr[0].ast, "",
             "a slot can be written twice: a second result for the same slot overwrites the first and the rung never completes correctly")
     ok = ("eq", "result.rung_index", "self.current_rung", True) in at
     rep.put(ok, "S2", "guarded_by", "SynchronousBracket.on_result: results are accepted for the current rung only", f, wr[0].ast, "")
     g = P.method("SynchronousBracket", "next_free_slot")
     inc = [n for n in cfg_of(g).nodes if n.kind == "stmt" and isinstance(n.ast, ast.AugAssign) and "_first_free_pos" in U(n.ast.target)]
-    ok = len(inc) == 1 and ctx.has_fact(g, inc[0].id, lambda a: a[0] == "lt" and a[1] == "pos" and a[2] == "len(rung)")
+    pv = vars_assigned_from(g, lambda v: U(v) == "self._first_free_pos")
+    ok = len(inc) == 1 and len(pv) == 1 and ctx.has_fact(g, inc[0].id, lambda a: a[0] == "lt" and a[1] == pv[0] and a[2].startswith("len("))
     rep.put(ok, "S2", "guarded_by", "SynchronousBracket.next_free_slot hands out each position once, within the rung", g, None, "")
+
+
+def _slot_writes(cfg):
+    """`<rung>[<pos>] = (result.trial_id, result.metric_val)`"""
+    return [n for n in cfg.nodes if n.kind == "stmt" and isinstance(n.ast, ast.Assign) and isinstance(n.ast.targets[0], ast.Subscript)
+            and isinstance(n.ast.value, ast.Tuple) and len(n.ast.value.elts) == 2 and U(n.ast.value.elts[1]).endswith(".metric_val")]
 
 
 def s3(ctx, rep):
     P = ctx.P
     f = P.method("SynchronousBracket", "on_result")
-    ic = [d for d in local_defs(f, "is_complete") if not isinstance(d, tuple)]
+    icv = vars_assigned_from(f, lambda v: "num_pending_slots()" in U(v))
+    icv = icv[0] if icv else "?"
+    ic = [d for d in local_defs(f, icv) if not isinstance(d, tuple)]
     ok = len(ic) == 1
     if ok:
         at = atoms_of(ic[0], True)
-        ok = ("le", "len(rung)", "self._first_free_pos") in at and ("eq", "0", "self.num_pending_slots()", True) in at
+        ok = any(a[0] == "le" and a[1].startswith("len(") and a[2] == "self._first_free_pos" for a in at) and \
+            ("eq", "0", "self.num_pending_slots()", True) in at
     rep.put(ok, "S3", "agreement", "SynchronousBracket.on_result: rung complete == all positions handed out and none pending", f, ic[0] if ic else None, "",
             "a rung is declared complete while results are still outstanding: trials are promoted before the whole rung has reported")
     cfg = cfg_of(f)
     pr = ctx.nodes(f, ctx.sel_call(selfcall="_promote_trials_at_rung_complete"), "may", 0)
-    ok = bool(pr) and all(ctx.has_fact(f, n, lambda a: a[0] == "truth" and a[1] == "is_complete" and a[2] is True) for n in pr)
+    ok = bool(pr) and all(ctx.has_fact(f, n, lambda a: a[0] == "truth" and a[1] == icv and a[2] is True) for n in pr)
     rep.put(ok, "S3", "guarded_by", "SynchronousBracket.on_result: promotion only when the rung is complete", f, None, "")
     # the completeness test is evaluated after the slot was written
-    wr = [n.id for n in cfg.nodes if n.kind == "stmt" and isinstance(n.ast, ast.Assign) and isinstance(n.ast.targets[0], ast.Subscript)
-          and U(n.ast.targets[0].value) == "rung"]
-    icn = [n.id for n in cfg.nodes if n.kind == "stmt" and isinstance(n.ast, ast.Assign) and U(n.ast.targets[0]) == "is_complete"]
+    wr = [n.id for n in _slot_writes(cfg)]
+    icn = [n.id for n in cfg.nodes if n.kind == "stmt" and isinstance(n.ast, ast.Assign) and U(n.ast.targets[0]) == icv]
     ok = bool(wr) and bool(icn) and cfg.path(cfg.entry, icn[0], deleted=set(wr)) is None
     rep.put(ok, "S3", "must_precede", "SynchronousBracket.on_result: slot written ≺ completeness test", f, None, "")
     g = P.method("SynchronousBracket", "num_pending_slots")
@@ -124,13 +135,16 @@ def s4_s5(ctx, rep):
     # failed trials only appended after all valid ones, and only on the edge "not enough valid"
     cfg = cfg_of(f)
     pads = [n for n in cfg.nodes if n.kind == "stmt" and isinstance(n.ast, ast.Assign) and isinstance(n.ast.value, ast.BinOp)
-            and isinstance(n.ast.value.op, ast.Add) and "invalid" in U(n.ast.value.right)]
+            and isinstance(n.ast.value.op, ast.Add) and isinstance(n.ast.value.right, ast.Subscript)
+            and any("isnan" in U(d) for nm in {x.id for x in ast.walk(n.ast.value.right) if isinstance(x, ast.Name)}
+                    for d in local_defs(f, nm) if not isinstance(d, tuple))]
     ok = len(pads) == 1
     if ok:
         v = pads[0].ast.value
-        ok = valid in U(v.left) and "new_len - num_valid" in U(v.right).replace("(", "").replace(")", "")
+        nv = vars_assigned_from(f, lambda x: U(x) == f"len({valid})")
+        ok = valid in U(v.left) and bool(nv) and f"new_len - {nv[0]}" in U(v.right).replace("(", "").replace(")", "")
         at = ctx.facts(f).at(pads[0].id)
-        ok = ok and ("lt", "num_valid", "new_len") in at
+        ok = ok and bool(nv) and ("lt", nv[0], "new_len") in at
     rep.put(ok, "S4", "guarded_by", "get_top_list: failed trials are promoted only after all valid ones and only to fill the rung", f,
             pads[0].ast if pads else None, "")
     # S5
@@ -167,7 +181,9 @@ def s6(ctx, rep):
         cr = cfg_of(r)
         back = ctx.nodes(r, ctx.sel_or(ctx.sel_call(selfcall="_on_result"), ctx.sel_call(selfcall="_return_slot_result_to_bracket")), "must", 0)
         edge = [(n.id, s) for n in cr.nodes if n.kind == "test" for s, l in cr.succ[n.id]
-                if isinstance(l, tuple) and l[2] is True and ("le", "milestone", "resource") in atoms_of(l[1], True)]
+                if isinstance(l, tuple) and l[2] is True and any(
+                    a[0] == "le" and any("level" in U(d) for d in local_defs(r, a[1]) if not isinstance(d, tuple))
+                    for a in atoms_of(l[1], True))]
         ok = bool(back) and bool(edge) and all(cr.path(s, cr.exit, deleted=back, skip_labels=("exc",)) is None for _, s in edge)
         rep.put(ok, "S6", "must_follow", f"{cname}.on_trial_result: a result at the milestone is returned to the bracket", r, None, "")
         dl = {n.id for n in cr.nodes if n.kind == "stmt" and isinstance(n.ast, ast.Delete) and "_trial_to_pending_slot" in U(n.ast)}
@@ -213,13 +229,15 @@ def s7(ctx, rep):
         f = P.cls(cname).methods.get("_create_new_bracket")
         if f is None:
             raise AnchorError(f"{cname}._create_new_bracket vanished")
-        off = [d for d in local_defs(f, "offset") if not isinstance(d, tuple)]
+        offn = vars_assigned_from(f, lambda v: isinstance(v, ast.BinOp) and isinstance(v.op, ast.Mod))
+        offn = offn[0] if offn else "?"
+        off = [d for d in local_defs(f, offn) if not isinstance(d, tuple)]
         ok = len(off) == 1 and isinstance(off[0], ast.BinOp) and isinstance(off[0].op, ast.Mod) and U(off[0].right) == "self.num_bracket_offsets"
         if ok:
             l = off[0].left
             ds = [U(d) for d in local_defs(f, U(l)) if not isinstance(d, tuple)]
             ok = ds == ["self._next_bracket_id"]
-        used = any(isinstance(x, ast.Subscript) and U(x.value) == "self._bracket_rungs" and U(x.slice) == "offset" for x in walk_shallow(f.node))
+        used = any(isinstance(x, ast.Subscript) and U(x.value) == "self._bracket_rungs" and U(x.slice) == offn for x in walk_shallow(f.node))
         rep.put(ok and used, "S7", "agreement", f"{cname}._create_new_bracket: rung system = bracket_rungs[bracket_id % num_bracket_offsets]", f, None, "",
                 "new brackets do not cycle through the configured rung systems")
 
